@@ -29,11 +29,13 @@ ghost(F_MQ, "MessageQueue.handle_event", "message_id = event.context.get('messag
 
 
 def _time_to_horizon(L):
-    return L.self._clock.g_horizon - now_ns(L.self)
+    # + the number of wake-ups by other processes still to come in this run (ghost Clock.g_wakeups_left): a process
+    # parked on a future takes no delivery until another process resolves it, which uses one of them up
+    return (L.self._clock.g_horizon - now_ns(L.self)) + L.self._clock.g_wakeups_left
 
 
 def _below_horizon(L):
-    return now_ns(L.self) <= L.self._clock.g_horizon
+    return (now_ns(L.self) <= L.self._clock.g_horizon) & (L.self._clock.g_wakeups_left >= 0)
 
 
 # frame of the environment between loop head and back edge: fields no process writes after construction
@@ -89,13 +91,28 @@ loop(F_TOPIC, "Topic.publish", 2, modifies=[("Event", "time")], types={"delivery
           ("emit-time-is-now", lambda L: ns(L.emit_time) == now_ns(L.self))], decreases=_remaining_items)
 
 loop(F_OUTBOX, "OutboxRelay._handle_poll", 1, modifies="world",
-     keeps=WORLD_KEEPS + [("OutboxRelay", "_relay_latency"), ("OutboxRelay", "_downstream"), ("OutboxRelay", "_poll_interval")],
+     keeps=WORLD_KEEPS + [("OutboxRelay", "_relay_latency"), ("OutboxRelay", "_downstream"), ("OutboxRelay", "_poll_interval"),
+                          ("OutboxRelay", "_batch_size")],
      types={"relay_events": lambda: Seq(Ref(Event)), "lag": lambda: Real},
      inv=[("configured-latency-nonneg", lambda L: L.self._relay_latency >= 0), ("clock-below-horizon", _below_horizon)],
      decreases=_remaining_items)
 loop(F_OUTBOX, "OutboxRelay._handle_poll", 2, modifies=[("Event", "time")], types={"relay_event": lambda: Ref(Event)},
      inv=[("restamped-so-far", _restamped_so_far("relay_event")),
           ("emit-time-is-now", lambda L: ns(L.emit_time) == now_ns(L.self))], decreases=_remaining_items)
+
+# ---- ConnectionPool._handle_warmup: creates the minimum connections one by one (each takes the connect latency) --------
+F_POOL = "happysimulator/components/client/connection_pool.py"
+loop(F_POOL, "ConnectionPool._handle_warmup", 1, modifies="world",
+     keeps=WORLD_KEEPS + [("ConnectionPool", f) for f in ("_target", "_min_connections", "_max_connections",
+                                                          "_connection_timeout", "_idle_timeout", "_connection_latency")],
+     types={"events": lambda: Seq(Ref(Event)), "connection": lambda: Ref(_K["Connection"]), "timeout_event": lambda: Ref(Event)},
+     inv=[("idle-timeout-positive", lambda L: L.self._idle_timeout > 0)])
+# (only on the repaired tree) for timeout_event in events: if timeout_event.time < emit_time: timeout_event.time = emit_time
+loop(F_POOL, "ConnectionPool._handle_warmup", 2, modifies=[("Event", "time")], types={"timeout_event": lambda: Ref(Event)},
+     inv=[("clamped-so-far", lambda L: forall(Int, lambda j: implies((0 <= j) & (j < L.i), mk_bool(
+              z3.Select(_time_ns_array(), seq_term(L.seq)[j.t]) >= num(ns(L.emit_time)))), "j")),
+          ("emit-time-is-now", lambda L: ns(L.emit_time) == now_ns(L.self))], decreases=_remaining_items)
+_K = {}
 
 from specs.common import *  # noqa: E402,F401
 from specs.c07_scan import scan as _scan  # noqa: E402
@@ -108,6 +125,7 @@ from happysimulator.components.messaging.dlq import DeadLetterQueue  # noqa: E40
 PROPERTY = {
     "id": "C07",
     "level": "proof",
+    "task_timeout": 900,       # refuting an obligation under quantified facts (unrepaired tree) runs into solver timeouts
     "trusted": ["heap typing of the fields declared in specs/C07.py and specs/common.py",
                 "specs/c07_scan.py: the AST abstract interpretation that classifies construction sites and loops "
                 "(its verdicts are turned into SMT obligations by the lemmas scan.*; the classification itself is trusted)"],
@@ -175,9 +193,11 @@ def clock_rely(s, b, y):
     (a future: some non-negative time)"""
     now1 = ns(s.self._clock._current_time)
     now0 = ns(b.pre(s.self._clock)._current_time)
+    w1, w0 = s.self._clock.g_wakeups_left, b.pre(s.self._clock).g_wakeups_left
     if is_delay(y):
-        return now1 == now0 + delay_ns(delay_of(y))
-    return now1 >= now0
+        return (now1 == now0 + delay_ns(delay_of(y))) & (w1 <= w0)
+    # parked on a future: resumed by a resolve() of another process (one of the finitely many of the run), not earlier
+    return (now1 >= now0) & (w1 < w0)
 
 
 def delay_nonneg(s, y):
@@ -262,8 +282,14 @@ PROPERTY["scan"] = {
                    for c in SCAN["spin"]],
     "loops_with_a_suspension": [{k: c[k] for k in ("file", "function", "line", "kind", "head", "yields", "certificate")}
                                 for c in SCAN["loops"]],
+    # not proved by the scan (no obligation generated): time expressions that are not clock-now(+offset) - constructor
+    # pass-throughs, completion hooks stamped with the hook's finish_time, start events built before the run - and
+    # loops whose delay is computed / that wait on a sub-generator
     "sites_not_classified": [f'{c["file"]}:{c["line"]} {c["function"]}: time={c["time"]}'
                              for c in SCAN["sites"] if c["class"] == "other"],
+    "loops_needing_a_contract": [f'{c["file"]}:{c["line"]} {c["function"]}: while {c["head"]}: {", ".join(c["yields"])}'
+                                 for c in SCAN["loops"] if c["cert_kind"] == "needs-contract"],
+    "loops_needing_a_contract_covered_in_part_2": ["ConnectionPool._handle_warmup (emission clause only)"],
 }
 
 
@@ -334,15 +360,30 @@ cls(MessageQueue, fields={
 
 MQ_YIELDS = dict(at_yield=AT_YIELD, rely=[clock_rely], stable=STABLE_CORE)
 
-fn(MessageQueue, "_deliver_message", args={"message_id": Str}, yields=Yields(**MQ_YIELDS), ensures=[
-    ("delivery-not-in-the-past", result_not_in_past)])
-fn(MessageQueue, "poll", yields=Yields(**MQ_YIELDS), ensures=[
-    ("delivery-not-in-the-past", result_not_in_past)])
+
+def _nonneg_delay(s):
+    """what a stubbed generator callee yields: one suspension of arbitrary non-negative length (covers 'no suspension':
+    a zero delay whose environment step changes nothing)"""
+    d = Real.fresh("callee_delay")
+    assume(d >= 0)
+    return d
+
+
+# modular: poll and handle_event use the contract of _deliver_message (proved right here) instead of inlining it
+MQ_DELIVERY_WRITES = ["_pending_queue", "_in_flight", "_consumer_index", "_messages_delivered", "_messages_redelivered",
+                      "_delivery_latencies"]
+_DM = fn(MessageQueue, "_deliver_message", args={"message_id": Str}, yields=Yields(**MQ_YIELDS), returns=OptRef(Event),
+         modifies=MQ_DELIVERY_WRITES, ensures=[("delivery-not-in-the-past", result_not_in_past)])
+_DM.stub_yield = _nonneg_delay
+_POLL = fn(MessageQueue, "poll", uses=[(MessageQueue, "_deliver_message")], yields=Yields(**MQ_YIELDS), returns=OptRef(Event),
+           modifies=MQ_DELIVERY_WRITES, ensures=[("delivery-not-in-the-past", result_not_in_past)])
+_POLL.stub_yield = _nonneg_delay
 fn(MessageQueue, "publish", args={"message": Ref(Event)}, yields=Yields(**MQ_YIELDS), ensures=[],
    raises={RuntimeError: [("only-when-full", lambda s: s.self._capacity is not None)]})
 fn(MessageQueue, "schedule_redelivery", args={"message_id": Str}, uses=[(DeadLetterQueue, "add_message")], ensures=[
     ("redelivery-not-in-the-past", result_not_in_past)])
-fn(MessageQueue, "handle_event", args={"event": Ref(Event)}, yields=Yields(**MQ_YIELDS), ensures=[
+fn(MessageQueue, "handle_event", args={"event": Ref(Event)}, uses=[(MessageQueue, "_deliver_message"), (MessageQueue, "poll")],
+   yields=Yields(**MQ_YIELDS), ensures=[
     ("deliveries-not-in-the-past", result_not_in_past)])
 
 # ---- rate limiter: DistributedRateLimiter.handle_event ----------------------------------------------------------
@@ -364,12 +405,6 @@ cls(DistributedRateLimiter, fields={
     "received_times": Seq(TIME), "forwarded_times": Seq(TIME), "dropped_times": Seq(TIME),
     "global_counts": Seq(Tuple(TIME, Int))},
     const=["_downstream", "_backing_store", "_global_limit", "_window_size", "_key_prefix", "_local_threshold"])
-
-
-def _nonneg_delay(s):
-    d = Real.fresh("store_latency")
-    assume(d >= 0)
-    return d
 
 
 _CAI = stub_of(DistributedRateLimiter, "check_and_increment", returns=Bool,
@@ -402,11 +437,16 @@ PROPERTY["assumptions"] += [
     "finite horizon: during a run the clock never exceeds a fixed instant (ghost Clock.g_horizon: the end_time, or the "
     "timestamp of the last event of a finite workload); 'time left to the horizon' is the termination measure of loops "
     "that suspend",
+    "finite workload: the number of wake-ups (SimFuture.resolve by another process) still to come in a run is finite "
+    "(ghost Clock.g_wakeups_left >= 0) and a process parked on a future is resumed only by such a resolve (each future "
+    "resumes its process once: C02), which uses one up; the measure of a loop that suspends is time-left + wakeups-left "
+    "(a loop that yields a future which is already resolved would resume at once and is not covered by this rely)",
     "wake-up callbacks stored in waiter records are only called by other processes (release / notify / barrier break)",
 ]
 
-cls(Clock, ghost={"g_horizon": Int}, const=["g_horizon"],
-    inv=[("clock-below-horizon", lambda o: o._current_time.nanoseconds <= o.g_horizon)])
+cls(Clock, ghost={"g_horizon": Int, "g_wakeups_left": Int}, const=["g_horizon"],
+    inv=[("clock-below-horizon", lambda o: o._current_time.nanoseconds <= o.g_horizon),
+         ("wakeups-left-nonneg", lambda o: o.g_wakeups_left >= 0)])
 
 WAKE = Fn(None, "wake")
 cls(_mutex_mod._Waiter, fields={"callback": WAKE, "enqueue_time_ns": Int})
@@ -449,6 +489,91 @@ fn(Barrier, "wait", focus=CLOCK_FOCUS, uses=[(Barrier, "_break_barrier")], yield
 fn(Condition, "wait", focus=CLOCK_FOCUS, yields=Yields(**SYNC_YIELDS), ensures=[],
    raises={RuntimeError: [("only-without-the-lock", lambda s: True)]})
 
+# ---- queueing pipeline (clean sample): Queue, QueueDriver, Server -----------------------------------------------------
+# (typing and the QueuePolicy interface contract as in specs/C08.py, where the conservation clauses are proved;
+#  here only the time clauses)
+from happysimulator.components.queue_policy import QueuePolicy  # noqa: E402
+from happysimulator.components.queue import Queue, QueuePollEvent, QueueNotifyEvent, QueueDeliverEvent  # noqa: E402
+from happysimulator.components.queue_driver import QueueDriver  # noqa: E402
+from happysimulator.components.server.server import Server  # noqa: E402
+from happysimulator.components.server.concurrency import WeightedConcurrency  # noqa: E402
+from happysimulator.distributions.latency_distribution import LatencyDistribution  # noqa: E402
+
+PROPERTY["assumptions"] += [
+    "QueuePolicy implementations meet the interface contract proved in C08 (is_empty/len/capacity/push/pop); "
+    "LatencyDistribution.get_latency returns a non-negative Duration (stub; the distributions clamp at 0); "
+    "Entity.has_capacity of a downstream entity is a side-effect free predicate",
+    "the Server is configured with a WeightedConcurrency-shaped model (any ConcurrencyModel meets the same acquire/release "
+    "interface, proved in C08) and request weights are >= 1",
+]
+
+cls(QueuePollEvent, fields={"requestor": OptRef(Entity)})
+cls(QueueNotifyEvent, fields={"queue_entity": OptRef(Entity)})
+cls(QueueDeliverEvent, fields={"payload": OptRef(Event, variants=[Event]), "queue_entity": OptRef(Entity)})
+ANY_EVENT = Ref(Event, variants=[Event, QueuePollEvent, QueueNotifyEvent, QueueDeliverEvent])
+
+
+def _within(n, cap):
+    return True if isinstance(cap, float) else n <= cap
+
+
+def _full(o):
+    return False if isinstance(o.g_cap, float) else o.g_size >= o.g_cap
+
+
+cls(QueuePolicy, ghost={"g_size": Int, "g_cap": IntInf},
+    inv=[("size-in-range", lambda o: (o.g_size >= 0) & _within(o.g_size, o.g_cap))])
+stub_of(QueuePolicy, "is_empty", returns=Bool, modifies=[], ensures=[lambda s: iff(s.result, s.self.g_size == 0)])
+stub_of(QueuePolicy, "__len__", returns=Int, modifies=[], ensures=[lambda s: s.result == s.self.g_size])
+stub_of(QueuePolicy, "push", returns=Bool, modifies=["g_size"], ensures=[
+    lambda s: iff(s.result, Not(_full(s.old(s.self)))),
+    lambda s: s.self.g_size == s.old(s.self).g_size + ite(s.result, 1, 0)])
+stub_of(QueuePolicy, "pop", returns=OptRef(Event, variants=[Event]), modifies=["g_size"], ensures=[
+    lambda s: iff(s.result is None, s.old(s.self).g_size == 0),
+    lambda s: s.self.g_size == s.old(s.self).g_size - (0 if s.result is None else 1)])
+POLICY_IFACE = [(QueuePolicy, n) for n in ("is_empty", "__len__", "push", "pop")]
+stub_of(Entity, "has_capacity", returns=Bool, modifies=[], ensures=[])
+
+cls(Queue, fields={"egress": Ref(Entity), "policy": Ref(QueuePolicy), "stats_dropped": Int, "stats_accepted": Int})
+cls(QueueDriver, fields={"queue": Ref(Entity), "target": Ref(Entity)})
+
+fn(Queue, "_handle_enqueue", args={"event": ANY_EVENT}, uses=POLICY_IFACE, focus=lambda s: [s.self.policy], ensures=[
+    ("notification-not-in-the-past", result_not_in_past)])
+fn(Queue, "_handle_poll", args={"event": Ref(QueuePollEvent)}, uses=POLICY_IFACE,
+   requires=[lambda s: s.event.requestor is not None], focus=lambda s: [s.self.policy], ensures=[
+    ("delivery-not-in-the-past", result_not_in_past)])
+fn(QueueDriver, "_handle_notify", args={"_": Ref(QueueNotifyEvent)}, uses=[(Entity, "has_capacity")], ensures=[
+    ("poll-not-in-the-past", result_not_in_past)])
+fn(QueueDriver, "_handle_work_payload", args={"payload": Ref(Event)}, uses=[(Entity, "has_capacity")], ensures=[
+    ("re-emitted-payload-not-in-the-past", result_not_in_past)])
+fn(QueueDriver, "_handle_delivery", args={"event": Ref(QueueDeliverEvent)}, uses=[(Entity, "has_capacity")], ensures=[
+    ("forwarded-payload-not-in-the-past", result_not_in_past)])
+
+cls(LatencyDistribution, fields={"_mean_latency": Real})
+stub_of(LatencyDistribution, "get_latency", returns=DURATION, modifies=[], ensures=[lambda s: s.result.nanoseconds >= 0])
+cls(WeightedConcurrency, fields={"_total_capacity": Int, "_used_capacity": Int}, const=["_total_capacity"],
+    inv=[("bounds", lambda o: (0 <= o._used_capacity) & (o._used_capacity <= o._total_capacity)),
+         ("cap", lambda o: o._total_capacity >= 1)])
+cls(Server, fields={"_concurrency_model": Ref(WeightedConcurrency), "_service_time": Ref(LatencyDistribution),
+                    "_downstream": OptRef(Entity), "_requests_completed": Int, "_requests_rejected": Int,
+                    "_total_service_time": Real, "_service_times": Seq(Real)})
+
+
+def _weight(e):
+    m = e.context.get("metadata", None)
+    if m is None:
+        return 1
+    return m.get("weight", 1)
+
+
+fn(Server, "handle_queued_event", args={"event": Ref(Event)},
+   requires=[("request-weight-positive", lambda s: _weight(s.event) >= 1)],
+   uses=[(LatencyDistribution, "get_latency")], focus=lambda s: [s.self._concurrency_model],
+   yields=Yields(at_yield=AT_YIELD, rely=[clock_rely],
+                 stable=STABLE_CORE + [("Server", "_concurrency_model"), ("Server", "_service_time"), ("Server", "_downstream"),
+                                       ("Event", "event_type"), ("Event", "context")]),
+   ensures=[("completion-not-in-the-past", result_not_in_past)])
+
 # ---- messaging: Topic.publish ---------------------------------------------------------------------------------------
 from happysimulator.components.messaging.topic import Topic, Subscription  # noqa: E402
 
@@ -489,5 +614,31 @@ ctor(OutboxRelay, args={"name": Str, "downstream": Ref(Entity), "poll_interval":
      setup=lambda s: _attached(s), teardown=lambda s: _detach(s), ensures=[],
      raises={ValueError: [("only-bad-config", lambda s: (s.poll_interval <= 0) | (s.batch_size < 1) | (s.relay_latency < 0))]})
 fn(OutboxRelay, "_schedule_poll", ensures=[("next-poll-not-in-the-past", result_not_in_past)])
-fn(OutboxRelay, "_handle_poll", args={"event": Ref(Event)}, focus=CLOCK_FOCUS, yields=Yields(**BATCH_YIELDS), ensures=[
+# (`sum(1 for e in self._entries if not e.relayed)`: a read-only count, replaced by an arbitrary non-negative int)
+stub_of(OutboxRelay, "pending_count", returns=Int, modifies=[], ensures=[lambda s: s.result >= 0])
+fn(OutboxRelay, "_handle_poll", args={"event": Ref(Event)}, focus=CLOCK_FOCUS, uses=[(OutboxRelay, "pending_count")],
+   yields=Yields(**BATCH_YIELDS), ensures=[
     ("relayed-events-and-next-poll-not-in-the-past", result_not_in_past)])
+
+# ---- client: ConnectionPool warm-up ----------------------------------------------------------------------------------
+from happysimulator.components.client.connection_pool import ConnectionPool, Connection  # noqa: E402
+
+_K["Connection"] = Connection
+cls(Connection, fields={"id": Int, "created_at": TIME, "last_used_at": TIME, "is_active": Bool})
+POOL_HOOK = Opt(Fn(None, "pool_hook"))
+cls(ConnectionPool, fields={
+    "_target": Ref(Entity), "_min_connections": Int, "_max_connections": Int, "_connection_timeout": Real,
+    "_idle_timeout": Real, "_connection_latency": Ref(LatencyDistribution), "_on_acquire": POOL_HOOK, "_on_release": POOL_HOOK,
+    "_on_timeout": POOL_HOOK, "_idle_connections": Seq(Ref(Connection)), "_active_connections": Map(Int, Ref(Connection)),
+    "_next_connection_id": Int, "_total_connections": Int, "_waiters": Seq(Any), "_next_waiter_id": Int,
+    "_connections_created": Int, "_connections_closed": Int, "_acquisitions": Int, "_releases": Int, "_timeouts": Int,
+    "_total_wait_time": Real},
+    const=["_target", "_min_connections", "_max_connections", "_connection_timeout", "_idle_timeout", "_connection_latency"],
+    inv=[("idle-timeout-positive", lambda o: o._idle_timeout > 0),            # validated by the constructor
+         ("connection-timeout-positive", lambda o: o._connection_timeout > 0)])
+fn(ConnectionPool, "_create_connection", uses=[(LatencyDistribution, "get_latency")],
+   yields=Yields(at_yield=AT_YIELD, rely=[clock_rely], stable=STABLE_CORE), ensures=[])
+fn(ConnectionPool, "_handle_warmup", args={"event": Ref(Event)}, uses=[(LatencyDistribution, "get_latency")],
+   yields=Yields(at_yield=AT_YIELD, rely=[clock_rely], stable=STABLE_CORE), ensures=[
+    ("idle-timeout-checks-not-in-the-past", result_not_in_past)])
+fn(ConnectionPool, "warmup", ensures=[("warmup-event-not-in-the-past", result_not_in_past)])
